@@ -512,6 +512,7 @@ def execute(plan: dict, *, want_digest: bool = False, want_trace: bool = False) 
         "vtime": sim.end_time,
         "sig": sim.signature(),
         "deadlock": sim.deadlock,
+        "crashed": sim.crashed,
         "step_limit": sim.step_limit,
         "nontrivial": len({r[3] for r in sim.trace}) >= 2 or sum(sim.faults.values()) > 0,
         "final": _final(sim),
@@ -845,6 +846,10 @@ def oracle(sim: Sim, plan: dict) -> list[dict]:
         else:
             is_first = True
         fs = fspec.get(t["tf"], {})
+        owner_be = body_ends.get(tfs[t["tf"]]["ctx"])
+        # a task spawned once the teardown of the factory's owner has begun races with the
+        # factory's own shutdown (see known findings)
+        late_spawn = "@teardown_spawn" if owner_be is not None and t["begin"][0] > owner_be[0] else ""
         handler = fs.get("handler")
         is_exc = _is_exception_desc(exc)
         calls = handler_calls.get(_h(exc), [])
@@ -858,12 +863,12 @@ def oracle(sim: Sim, plan: dict) -> list[dict]:
             if truthy and surfaced:
                 v("C09.handler", "not_swallowed", f"{exc} from task {tid} was handled (truthy) but still came out of the root context")
             if not truthy and not surfaced and is_first and x is not None and not (cancel_seq is not None and cancel_seq < x[0]):
-                v("C09.handler", "swallowed", f"{exc} from task {tid}: handler returned a falsy value but the exception vanished (root raised {x[5]['exc']})")
+                v("C09.handler", "swallowed" + late_spawn, f"{exc} from task {tid}: handler returned a falsy value but the exception vanished (root raised {x[5]['exc']})")
         else:
             if calls and not is_exc:
                 v("C09.handler", "base_exception", f"handler called for {exc}")
             if not surfaced and is_first and x is not None and not (cancel_seq is not None and cancel_seq < x[0]):
-                v("C09.handler", "vanished", f"{exc} escaping task {tid} (no handler / not an Exception) did not come out of the root context (root raised {x[5]['exc']})")
+                v("C09.handler", "vanished" + late_spawn, f"{exc} escaping task {tid} (no handler / not an Exception) did not come out of the root context (root raised {x[5]['exc']})")
     for r in tr:
         if r[4] == "escaped" and cancel_seq is None:
             for p in PROPS:
